@@ -11,7 +11,9 @@ What the extraction changes (all stated in the evidence, `extraction` key):
     assumed specification (Verus gives derived Clone of non-Copy types no spec);
   * `type Action = Fn(&siginfo_t) + Send + Sync` and `std::sync::Arc` are replaced by opaque types (Verus has no
     `dyn Fn`); the mutators only move `Arc<Action>` values;
-  * comments are kept; nothing inside a function body is changed: the erasure check below proves that deleting the
+  * T1/T2: every `<x>.store(<v>);` and `Slot::new(signal)` gets the ghost trace as an extra argument (`&mut tr`), so that
+    the ORDER of fallback publication / sigaction / data publication is recorded by the calls themselves;
+  * comments are kept; nothing else inside a function body is changed: the erasure check below proves that deleting the
     overlay's ghost lines from the verified text gives back the extracted function text byte for byte.
 """
 import hashlib, json, os, re
@@ -20,7 +22,7 @@ import shv
 VDIR = os.path.join(shv.VERIF, 'verus', 'registry')
 SRC = 'signal-hook-registry/src/lib.rs'
 COPY_DERIVE = re.compile(r'#\[derive\([^)]*\bCopy\b[^)]*\)\]')
-GHOST_LINE = re.compile(r'^\s*(proof \{|let ghost |assume\(|broadcast use |assert\(|\}|let ret = )')
+GHOST_LINE = re.compile(r'^\s*(proof \{|let ghost |let mut tr: Ghost<Seq<REv>> = |assume\(|broadcast use |assert\(|\}|let ret = )')
 
 HEADER = '''// GENERATED on every run by lib/verus_registry.py from %s - do not edit
 #![feature(allocator_api)]
@@ -145,6 +147,31 @@ def extract(src_text):
     return items, notes
 
 
+def rewrite_trace(fn_name, text, notes):
+    """T1/T2: pass the ghost trace to the two kinds of call whose ORDER the contract talks about: every `.store(<v>);`
+    (publication through a WriteGuard) and `Slot::new(signal)` (the sigaction call that installs the dispatcher)."""
+    code = re.sub(r'//.*$', '', text, flags=re.M)
+    if re.search(r'\btr\b', code):
+        raise Lost('anchor lost in fn %s: the identifier `tr` is used by the code' % fn_name)
+    total = len(re.findall(r'\.store\(', code))
+    out, n1 = [], 0
+    for l in text.split('\n'):
+        m = re.match(r'^(\s*(?:\w+)?\.store\(.*)\);\s*$', l)
+        if m and not l.lstrip().startswith('//'):
+            out.append(m.group(1) + ', &mut tr);')
+            n1 += 1
+        else:
+            out.append(l)
+    if n1 != total or n1 < 1:
+        raise Lost('anchor lost in fn %s: %d of %d `.store(` calls are statements of the shape `<x>.store(<v>);`' % (fn_name, n1, total))
+    text = '\n'.join(out)
+    text, n2 = re.subn(r'\bSlot::new\(signal\)', 'Slot::new(signal, &mut tr)', text)
+    if n2 != len(re.findall(r'\bSlot::new\(', code)):
+        raise Lost('anchor lost in fn %s: a `Slot::new(` call does not have the shape `Slot::new(signal)`' % fn_name)
+    notes.append('%s: T1 %d x `.store(<v>);` -> `.store(<v>, &mut tr);`%s' % (fn_name, n1, '; T2 %d x `Slot::new(signal)` -> `Slot::new(signal, &mut tr)`' % n2 if n2 else ''))
+    return text
+
+
 def splice(fn_name, text, overlay, preamble):
     """returns (lines, inserted_flags). Every anchor must match exactly one line."""
     lines = text.split('\n')
@@ -207,9 +234,10 @@ def build(sc):
     n_inserted = 0
     for fn in ('unregister', 'unregister_signal', 'register_unchecked_impl'):
         gen.append('// ---- EXTRACTED fn %s (line %d of %s) + contract overlay' % (fn, items[fn]['first_line'], SRC))
-        lines, flags = splice(fn, items[fn]['text'], ov['functions'][fn], ov['preamble'])
-        # erasure check: deleting the inserted lines gives back the extracted text byte for byte
-        if '\n'.join(l for l, f in zip(lines, flags) if not f) != items[fn]['text']:
+        rewritten = rewrite_trace(fn, items[fn]['text'], notes)
+        lines, flags = splice(fn, rewritten, ov['functions'][fn], ov['preamble'])
+        # erasure check: deleting the inserted lines gives back the extracted text (after the stated rewrites T1/T2) byte for byte
+        if '\n'.join(l for l, f in zip(lines, flags) if not f) != rewritten:
             raise Lost('internal: erasure check failed for fn %s' % fn)
         for l, f in zip(lines, flags):
             if f and not GHOST_LINE.match(l):
@@ -233,7 +261,7 @@ def build(sc):
             raise Lost('anchor lost: a statement with an early return mentions `lock` (C14.V-ERR-NO-PUBLISH is stated just before the statement)')
     info = {'items': {n: {'line': v['first_line'], 'sha256': v['sha256']} for n, v in items.items()},
             'transformations': notes, 'overlay_ghost_lines': n_inserted,
-            'erasure_check': 'passed: verified text minus overlay lines == extracted text, byte for byte, for all 3 functions',
+            'erasure_check': 'passed: verified text minus overlay lines == extracted text after rewrites T1/T2 (ghost trace argument on `.store(..)` and `Slot::new(signal)`), byte for byte, for all 3 functions',
             'syntactic_side_conditions': ['register_unchecked_impl has exactly 2 `?` early returns, none in a statement that mentions `lock`']}
     return '\n'.join(gen) + '\n', obl_at, fn_span, info
 
@@ -241,7 +269,7 @@ def build(sc):
 REFUTED = ('assertion failed', 'precondition not satisfied', 'postcondition not satisfied', 'possible arithmetic underflow/overflow',
            'possible division by zero', 'invariant not satisfied', 'index out of bounds', 'recommendation not met')
 ALL_OBL = ['C05.V-UNREG-IFF-LIVE', 'C05.V-PUBLISH-IFF-CHANGED', 'C05.V-REMOVE-ONLY-IT', 'C05.V-UNREG-SIGNAL', 'C05.V-REG-APPEND',
-           'C05.V-ID-FRESH', 'C05.V-INV', 'C05.V-NO-PANIC', 'C02.V-ID-MONO', 'C04.V-PREV-PUBLISHED', 'C14.V-ERR-NO-PUBLISH', 'C05.V-HISTORY', 'C05.V-INV-BASE']
+           'C05.V-ID-FRESH', 'C05.V-INV', 'C05.V-NO-PANIC', 'C02.V-ID-MONO', 'C04.V-PREV-PUBLISHED', 'C14.V-ERR-NO-PUBLISH', 'C05.V-HISTORY', 'C05.V-INV-BASE', 'C04.V-REG-ORDER', 'C05.V-INSTALL-ONLY-NEW']
 
 
 def run_registry(sc, unit, pid, tier):
